@@ -1193,7 +1193,12 @@ class Interp:
         if node.cause is not None:
             cause = self.eval(node.cause, env)
             if self.kind(e) == "ref":
+                # `raise e from c` stores into the exception object (language reference 7.8): __cause__ = c and
+                # __suppress_context__ = True - logged like every attribute store, so that frame clauses see it
+                self.st.ghost.setdefault("$attr_writes", []).append((e, "__cause__"))
+                self.st.ghost.setdefault("$attr_writes", []).append((e, "__suppress_context__"))
                 self.st.put(e, "__cause__", cause)
+                self.st.put(e, "__suppress_context__", V.VBool(True))
         raise PyRaise(e, "raise")
 
     def s_FunctionDef(self, node, env: Env):
